@@ -717,6 +717,12 @@ impl RdfPlanner {
             }
         }
 
+        // MINUS removes a solution only if it shares a variable with a compatible solution
+        // of the right side: without a shared variable nothing is removed (SPARQL 18.5).
+        if left_keys.is_empty() {
+            return Ok((left_op, left_columns));
+        }
+
         // Output is just left columns (anti-join filters out matching rows)
         let columns = left_columns.clone();
         let output_schema = derive_rdf_schema(&columns);
